@@ -14,6 +14,7 @@ mod c01;
 mod c04;
 mod c05;
 mod c06;
+mod c09;
 mod c10;
 mod c11;
 mod c14;
@@ -50,7 +51,7 @@ pub struct Prop {
 }
 
 fn props() -> Vec<Prop> {
-    vec![c01::PROP, c01::PROP2, c01::PROP3, c04::PROP, c05::PROP, c06::PROP, c06::PROP7, c06::PROP8, c06::PROP13, c10::PROP, c11::PROP, c11::PROP12, c14::PROP, c17::PROP, c18::PROP, c15::PROP]
+    vec![c01::PROP, c01::PROP2, c01::PROP3, c04::PROP, c05::PROP, c06::PROP, c06::PROP7, c06::PROP8, c06::PROP13, c09::PROP, c10::PROP, c11::PROP, c11::PROP12, c14::PROP, c17::PROP, c18::PROP, c15::PROP]
 }
 
 /// observation used when the implementation panicked
